@@ -771,7 +771,7 @@ Qed.
    (route, host) read from the file system no more than the time limit ago *)
 Theorem handler_fresh : forall lim tl pre q post p,
   nth_error (fst (hrun (empty lim tl) (pre ++ q :: post))) (length pre) = Some p ->
-  p = mkResp (q_fs q) (q_mime q) false \/
+  p = mkResp (q_fs q) (q_mime q) false (blen (q_fs q) <=? lim) \/
   (p_cached p = true /\
    exists pre1 q' pre2, pre = pre1 ++ q' :: pre2 /\
      q_route q' = q_route q /\ q_host q' = q_host q /\
@@ -798,7 +798,8 @@ Proof.
     apply in_split in Hq'. destruct Hq' as (pre1 & pre2 & ->).
     exists pre1, q', pre2. subst it. cbn [i_data i_mime]. subst. auto 10.
   - destruct (store c1 (q_route q) (q_host q) (q_fs q) (q_mime q) (q_now q)); try discriminate.
-    inversion Hd; subst. left. reflexivity.
+    inversion Hd; subst. left.
+    destruct (handler_invariants _ _ _ _ R1) as (_ & _ & _ & -> & _). reflexivity.
 Qed.
 
 (* ------------------------------------------------------------------------------------------------ *)
@@ -858,4 +859,138 @@ Theorem every_get_latest : forall lim tl pre r h now post it,
 Proof.
   intros lim tl pre r h now post it H. apply run_get_output in H. destruct H as (c & R & G).
   eapply get_latest; eassumption.
+Qed.
+
+(* ------------------------------------------------------------------------------------------------ *)
+(* handler level: a hit is the contents read by the most recent request for that key that stored *)
+
+Lemma handle_stored : forall c q c' p, handle c q = Ok (c', p) -> p_stored p = true ->
+  p = mkResp (q_fs q) (q_mime q) false true /\
+  lookup c (q_route q) (q_host q) (q_now q) = Ok None /\ blen (q_fs q) <=? c_limit c = true.
+Proof.
+  intros c q c' p H S. unfold handle in H.
+  destruct (lookup c (q_route q) (q_host q) (q_now q)) as [[it|]|e|w]; try discriminate.
+  - inversion H; subst. discriminate.
+  - destruct (store c (q_route q) (q_host q) (q_fs q) (q_mime q) (q_now q)); try discriminate.
+    inversion H; subst. cbn [p_stored] in S. rewrite S. auto.
+Qed.
+
+Lemma handle_not_stored : forall c q c' p, handle c q = Ok (c', p) -> p_stored p = false -> c' = c.
+Proof.
+  intros c q c' p H S. unfold handle in H.
+  destruct (lookup c (q_route q) (q_host q) (q_now q)) as [[it|]|e|w]; try discriminate.
+  - inversion H; subst. reflexivity.
+  - unfold store in H. destruct (blen (q_fs q) <=? c_limit c) eqn:G.
+    + destruct (set c (q_route q) (q_host q) (q_fs q) (q_mime q) (q_now q)); try discriminate.
+      inversion H; subst. cbn [p_stored] in S. congruence.
+    + inversion H; subst. reflexivity.
+Qed.
+
+(* the trace of one request changes the abstract map exactly when the request stored *)
+Lemma req_ops_spec : forall c q c' p m, handle c q = Ok (c', p) ->
+  fold_left spec_step (req_ops c q) m =
+  if p_stored p then (req_key q, (q_fs q, q_mime q, q_now q)) :: m else m.
+Proof.
+  intros c q c' p m H. unfold req_ops. rewrite fold_left_app.
+  assert (E : fold_left spec_step (if 0 <? c_limit c then [OGet (q_route q) (q_host q) (q_now q)] else []) m = m)
+    by (destruct (0 <? c_limit c); reflexivity).
+  rewrite E. unfold handle in H.
+  destruct (lookup c (q_route q) (q_host q) (q_now q)) as [[it|]|e|w]; try discriminate.
+  - inversion H; subst. reflexivity.
+  - unfold store in H. destruct (blen (q_fs q) <=? c_limit c) eqn:G.
+    + destruct (set c (q_route q) (q_host q) (q_fs q) (q_mime q) (q_now q)); try discriminate.
+      inversion H; subst. cbn [p_stored]. reflexivity.
+    + inversion H; subst. cbn [p_stored]. reflexivity.
+Qed.
+
+Lemma hspec_trace : forall qs c m c1, snd (hrun c qs) = Ok c1 ->
+  hspec c qs m = fold_left spec_step (htrace c qs) m.
+Proof.
+  induction qs as [|q qs IH]; intros c m c1 H; [reflexivity|].
+  rewrite hrun_snd_cons in H. cbn [hspec htrace]. rewrite fold_left_app.
+  destruct (handle c q) as [[c' p]|e|w] eqn:Hd; try discriminate.
+  rewrite (req_ops_spec _ _ _ _ m Hd). eapply IH. eassumption.
+Qed.
+
+Definition same_key_not_stored (k : key) (qp : req * resp) : Prop :=
+  req_key (fst qp) = k -> p_stored (snd qp) = false.
+
+Lemma hspec_lookup_inv : forall qs c m ps c1 k e,
+  hrun c qs = (ps, Ok c1) ->
+  alookup k (hspec c qs m) = Some e ->
+  (exists a1 q' a2,
+     combine qs ps = a1 ++ (q', mkResp (q_fs q') (q_mime q') false true) :: a2 /\
+     req_key q' = k /\ e = (q_fs q', q_mime q', q_now q') /\
+     Forall (same_key_not_stored k) a2)
+  \/ (alookup k m = Some e /\ Forall (same_key_not_stored k) (combine qs ps)).
+Proof.
+  induction qs as [|q qs IH]; intros c m ps c1 k e R A.
+  - cbn in R. inversion R; subst. right. split; [exact A | constructor].
+  - cbn [hrun] in R. cbn [hspec] in A.
+    destruct (handle c q) as [[c' p]|e'|w] eqn:Hd; try (inversion R; fail).
+    destruct (hrun c' qs) as [ps' fin] eqn:R'. inversion R; subst ps fin; clear R.
+    cbn [combine].
+    destruct (IH _ _ _ _ _ _ R' A) as [(a1 & q' & a2 & E1 & E2 & E3 & E4)|[A' F]].
+    + left. exists ((q, p) :: a1), q', a2. cbn [app]. rewrite E1. auto.
+    + destruct (p_stored p) eqn:S.
+      * cbn [alookup] in A'. destruct (key_eqb (req_key q) k) eqn:K.
+        -- apply key_eqb_spec in K. inversion A'; subst e. left.
+           destruct (handle_stored _ _ _ _ Hd S) as (-> & _).
+           exists [], q, (combine qs ps'). cbn [app]. auto.
+        -- right. split; [assumption|]. constructor; [|assumption].
+           intro Hk. cbn [fst] in Hk. apply key_eqb_false in K. contradiction.
+      * right. split; [assumption|]. constructor; [|assumption]. intros _. exact S.
+Qed.
+
+(* step form: after ANY request history `pre` from the empty cache, the next request q is answered either with the
+   file as it is now, or — when answered from the cache — with exactly the contents and MIME type that the most
+   recent storing request for the same (route, host) read, no longer ago than the time limit; every request for that
+   key since then was answered without storing (from the cache, or its file did not fit). *)
+Theorem handler_hit_is_latest_stored : forall lim tl pre ps c1 q c2 p,
+  hrun (empty lim tl) pre = (ps, Ok c1) ->
+  handle c1 q = Ok (c2, p) ->
+  p_cached p = true ->
+  exists a1 q' a2,
+    combine pre ps = a1 ++ (q', mkResp (q_fs q') (q_mime q') false true) :: a2 /\
+    req_key q' = req_key q /\
+    p = mkResp (q_fs q') (q_mime q') true false /\
+    q_now q' <= q_now q /\ q_now q - q_now q' <= tl /\
+    Forall (same_key_not_stored (req_key q)) a2 /\
+    c2 = c1.
+Proof.
+  intros lim tl pre ps c1 q c2 p R H C.
+  assert (R1 : snd (hrun (empty lim tl) pre) = Ok c1) by (rewrite R; reflexivity).
+  unfold handle in H.
+  destruct (lookup c1 (q_route q) (q_host q) (q_now q)) as [[it|]|e|w] eqn:Lk; try discriminate.
+  2: { destruct (store c1 (q_route q) (q_host q) (q_fs q) (q_mime q) (q_now q)); try discriminate.
+       inversion H; subst. discriminate. }
+  inversion H; subst c2 p; clear H.
+  unfold lookup in Lk. destruct (0 <? c_limit c1); [|discriminate].
+  pose proof R1 as R2. rewrite hrun_trace in R2.
+  pose proof (run_sub _ _ [] _ (inv_empty lim tl) (sub_empty lim tl []) R2) as S.
+  rewrite <- (hspec_trace pre (empty lim tl) [] c1 R1) in S.
+  destruct (run_inv _ _ _ (inv_empty lim tl) R2) as (_ & _ & TL). cbn in TL.
+  apply get_some in Lk. destruct Lk as (Hin & K & T1 & T2). rewrite TL in T2.
+  specialize (S it Hin). rewrite K in S.
+  destruct (hspec_lookup_inv _ _ _ _ _ _ _ R S) as [(a1 & q' & a2 & E1 & E2 & E3 & E4)|[A _]]; [|discriminate].
+  exists a1, q', a2. unfold item_entry in E3. inversion E3 as [[D1 D2 D3]]. rewrite D1, D2.
+  split; [assumption|]. split; [exact E2|]. split; [reflexivity|].
+  split; [lia|]. split; [lia|]. split; [assumption | reflexivity].
+Qed.
+
+(* the response number |pre| of a history is the handler's answer in the state reached after `pre` *)
+Theorem hrun_nth : forall c pre q post p,
+  nth_error (fst (hrun c (pre ++ q :: post))) (length pre) = Some p ->
+  exists ps c1 c2, hrun c pre = (ps, Ok c1) /\ handle c1 q = Ok (c2, p).
+Proof.
+  intros c pre q post p H. rewrite hrun_app in H.
+  pose proof (hrun_length pre c) as Len.
+  destruct (hrun c pre) as [ps fin] eqn:R. cbn [fst snd] in *.
+  destruct fin as [c1|e|w].
+  2,3: (assert (nth_error ps (length pre) = None) as E by (apply nth_error_None; lia);
+        cbn [fst] in H; rewrite E in H; discriminate).
+  cbn [fst] in H. rewrite nth_error_app2 in H by lia. rewrite Len, Nat.sub_diag in H.
+  cbn [hrun] in H. destruct (handle c1 q) as [[c2 p']|e|w] eqn:Hd; [|discriminate|discriminate].
+  destruct (hrun c2 post) as [ps' fin']. cbn in H. inversion H; subst p'.
+  exists ps, c1, c2. auto.
 Qed.
